@@ -30,7 +30,8 @@ From Coq Require Import List ZArith NArith Bool Permutation.
 From Astisub Require Import Kit.Base Kit.Str Kit.Float64 Kit.Float64x Kit.Xml Model.Dur Model.Ttml
   Proofs.DurProofs Proofs.TtmlBase Proofs.TtmlSpec Proofs.TtmlTime Proofs.TtmlFloat Proofs.TtmlFloat2 Proofs.TtmlTimeAll
   Proofs.TtmlLines Proofs.TtmlPara Proofs.TtmlRefs Proofs.TtmlDocSpec Proofs.TtmlDoc Kit.XmlParse Proofs.XmlParseProofs Proofs.TtmlBytes
-  Proofs.TtmlRender Proofs.TtmlRenderTime Proofs.TtmlRenderDoc Proofs.TtmlReadRendered Proofs.TtmlRenderEx.
+  Proofs.TtmlRender Proofs.TtmlRenderTime Proofs.TtmlRenderDoc Proofs.TtmlReadRendered Proofs.TtmlRenderEx
+  Kit.XmlParse2 Proofs.XmlParse2Proofs.
 Import ListNotations.
 Open Scope Z_scope.
 
@@ -184,6 +185,18 @@ Print Assumptions C03_read_rendered.
 Example C03_read_rendered_example : render_ok ex_rendering ex_model = true /\
   read_ttml (render_ttml ex_rendering ex_model) = Ok (denote_ttml ex_rendering ex_model).
 Proof. split; [exact ex_render_ok | exact ex_read_rendered]. Qed.
+
+(* ---------------- the XML parser model for hand-written documents ---------------- *)
+(* [xml_parse2] (Kit/XmlParse2.v): prolog (declaration, comments, processing instructions), single- or double-quoted
+   attributes, white space inside tags, self-closing tags, the five predefined entities and numeric character
+   references (UTF-8), comments in content (character data merged), name-space resolution as Go's decoder; tied per
+   case to encoding/xml on every rendered document, the repository samples and the corpus (suite xmlparse2).  It
+   inverts the printer [print2] for every printing choice (quotes, self-closing, white space in tags) on every
+   printable tree ([wf2_root]: mixed content allowed, no CR). *)
+Theorem C03_parse2_print2 : forall pc t prolog, wf2_root t = true -> pchoice_ok pc t = true -> prolog_ok prolog = true ->
+  xml_parse2 (prolog ++ print2 print_name pc t) = Some t.
+Proof. exact parse2_print2. Qed.
+Print Assumptions C03_parse2_print2.
 
 (* ---------------- totality ---------------- *)
 Theorem C03_read_total : forall root s, read_ttml root <> Panic s.
